@@ -1,6 +1,6 @@
 (* C06 — A handler sees exactly its own unit's parameters; wrong arity is an error
    Statements only: each theorem is closed by `exact` of a lemma proved in the *_proofs.v files. *)
-From VF Require Import Base Gen_Errors Lexer Response Tree Tree_proofs.
+From VF Require Import Base Gen_Errors Lexer Grammar Response Tree Tree_proofs HeaderSpec MessageSpec Message_proofs.
 Open Scope N_scope.
 
 Section C06_statements.
@@ -49,6 +49,15 @@ Theorem C06_leftover_is_108 : forall fu (root leaf : tree D) s leaf' s' tok rest
   unit_loop (S fu) root leaf s = Val (with_toks s' rest, Some (std_error ParameterNotAllowed)).
 Proof. apply leftover_is_108. Qed.
 
+Theorem C06_message_semantics : forall (root : tree D) (m : msg) (d : D) (f : fmt),
+  wf_tree root -> wf_msg m = true ->
+  run root (render_msg m) d f = Val (spec_message root m d f).
+Proof. apply message_semantics. Qed.
+
+Theorem C06_spec_prog_consumes_prefix : forall (p : hprog D) data f u rest d' f' e,
+  spec_prog p data f u = (rest, d', f', e) -> exists used, data = used ++ rest.
+Proof. apply spec_prog_consumes_prefix. Qed.
+
 End C06_statements.
 
 Print Assumptions C06_pull_only_data.
@@ -60,3 +69,5 @@ Print Assumptions C06_pull_next_datum.
 Print Assumptions C06_pull_at_unit_end.
 Print Assumptions C06_handler_stays_in_unit.
 Print Assumptions C06_leftover_is_108.
+Print Assumptions C06_message_semantics.
+Print Assumptions C06_spec_prog_consumes_prefix.
